@@ -483,6 +483,10 @@ package keyvalue
 // setFile: one read-write transaction holding a single Set. FS operations validate the path before they get here.
 //@ func (fs *FS) setFile(path string, file FileRecord) (err error)
 //@   props C14 C01 C03 C17
+//@   propagates [C14] Transaction
+//@   propagates [C14] setFileTxn
+//@   propagates [C14] Commit
+//@   propagates [C14] firstOpErr
 //@   requires fsInv(fs) && (isMem(fs) || isSerial(fs)) && VP(path) && srcOK(file)
 //@   dispatch FileRecord *fileData mem.fileRecord *BaseFileRecord
 //@   dispatch Transaction *mem.transaction *unsafeSerialTransaction
@@ -518,6 +522,7 @@ package keyvalue
 
 //@ func (f *file) writeBlobAt(op string, p blob.Blob, off int64) (n int, err error)
 //@   props C02 C14
+//@   propagates [C14] save
 //@   requires fileInv(f) && hDataOK(f) && blob.blobOK(p) && !blob.blobLocked(p)
 //@   requires "distinct-objects" implies(hDataErr(f) == nil && payload(p) == payload(hData(f)), tag(p) == tag(hData(f)))
 //@   requires "no-alias" implies(hDataErr(f) == nil && isType(p, *blob.Bytes) && isType(hData(f), *blob.Bytes), payload(p) != payload(hData(f)) &&
@@ -611,6 +616,7 @@ package keyvalue
 
 //@ func (f *file) Truncate(size int64) (err error)
 //@   props C02 C17 C14
+//@   propagates [C14] save
 //@   requires fileInv(f) && hDataOK(f) && sizeConsistent(f)
 //@   requires "size-bound" size <= 1<<40
 //@   modifies fRec(f).data, fRec(f).dataErr, fRec(f).dataDone, oncedone(fRec(f).dataOnce), fRec(f).mode, oncedone(fRec(f).modeOnce), fRec(f).modTime, oncedone(fRec(f).modTimeOnce), f.fileData.modTimeOverride, world(), mapOf(ms(f.fileData.fs).records),
@@ -639,6 +645,7 @@ package keyvalue
 
 //@ func (f *file) Chmod(mode hackpadfs.FileMode) (err error)
 //@   props C17 C14 C01
+//@   propagates [C14] save
 //@   requires fileInv(f)
 //@   modifies fRec(f).data, fRec(f).dataErr, fRec(f).dataDone, oncedone(fRec(f).dataOnce), fRec(f).mode, oncedone(fRec(f).modeOnce), fRec(f).modTime, oncedone(fRec(f).modTimeOnce),
 //@            f.fileData.modeOverride, world(), mapOf(ms(f.fileData.fs).records)
@@ -868,6 +875,7 @@ package keyvalue
 
 //@ func (fs *FS) Stat(name string) (info hackpadfs.FileInfo, err error)
 //@   props C01 C04 C05 C14 C03
+//@   propagates [C14] getFile
 //@   requires fsOK(fs)
 //@   modifies world()
 //@   ensures "gate" [C04] implies(!VP(name), info == nil && pathErr(err, "stat", name) && errIs(err, hackpadfs.ErrInvalid) && innerErr(err) == hackpadfs.ErrInvalid && world() == old(world()))
@@ -888,6 +896,8 @@ package keyvalue
 
 //@ func (fs *FS) Chmod(name string, mode hackpadfs.FileMode) (err error)
 //@   props C01 C04 C05 C14 C03
+//@   propagates [C14] getFile
+//@   propagates [C14] save
 //@   requires fsOK(fs)
 //@   modifies world(), mapOf(ms(fs).records)
 //@   ensures "gate" [C04] implies(!VP(name), pathErr(err, "chmod", name) && errIs(err, hackpadfs.ErrInvalid) && world() == old(world()) && implies(isMem(fs), memSame(fs)))
@@ -904,6 +914,8 @@ package keyvalue
 
 //@ func (fs *FS) Chtimes(name string, atime time.Time, mtime time.Time) (err error)
 //@   props C01 C04 C05 C14 C03
+//@   propagates [C14] getFile
+//@   propagates [C14] save
 //@   requires fsOK(fs)
 //@   modifies world(), mapOf(ms(fs).records)
 //@   ensures "gate" [C04] implies(!VP(name), pathErr(err, "chtimes", name) && errIs(err, hackpadfs.ErrInvalid) && world() == old(world()) && implies(isMem(fs), memSame(fs)))
@@ -936,6 +948,9 @@ package keyvalue
 
 //@ func (fs *FS) Remove(name string) (err error)
 //@   props C01 C04 C05 C14 C03
+//@   propagates [C14] getFile
+//@   propagates [C14] ReadDirNames
+//@   propagates [C14] setFile
 //@   requires fsOK(fs)
 //@   use childDirAll(name)
 //@   modifies world(), mapOf(ms(fs).records)
@@ -979,6 +994,8 @@ package keyvalue
 
 //@ func (fs *FS) Mkdir(name string, perm hackpadfs.FileMode) (err error)
 //@   props C01 C04 C05 C14 C03
+//@   propagates [C14] Stat unless errIs(e, hackpadfs.ErrNotExist)
+//@   propagates [C14] setFile
 //@   requires fsOK(fs)
 //@   use dirValid(name)
 //@   dispatch hackpadfs.FileInfo fileInfo
